@@ -40,6 +40,10 @@ type Cfg struct {
 	TTL            int64   `json:"ttl_s"`
 	UpdaterOnSleep bool    `json:"updater_on_sleep,omitempty"`
 	Offsets        []int64 `json:"offsets_ms,omitempty"` // initial per-member clock offsets
+	// FaultAt > 0: the FaultAt-th write txn of the whole history (all members) fails with FaultKind
+	// ("before" = not applied, "lostack" = applied, error returned). Used by fault enumeration.
+	FaultAt   int    `json:"fault_at,omitempty"`
+	FaultKind string `json:"fault_kind,omitempty"`
 }
 
 // Task is one participant of a scheduled race.
@@ -184,6 +188,7 @@ type world struct {
 	viol         []Violation
 	failNext     [3]string
 	lostAck      [3]bool
+	writeSeq     int // write txns seen so far (sequential part of the history)
 	sched        *gate.Sched
 	raceTxn      int
 	raceFailAt   int
@@ -243,6 +248,10 @@ func (w *world) install() {
 				w.mu.Lock()
 				fk := w.failNext[si]
 				w.failNext[si] = ""
+				w.writeSeq++
+				if w.c.Cfg.FaultAt != 0 && w.writeSeq == w.c.Cfg.FaultAt {
+					fk = w.c.Cfg.FaultKind
+				}
 				w.mu.Unlock()
 				switch fk {
 				case "before":
@@ -303,6 +312,11 @@ func (w *world) recordGrant(m *mem, ts pdpb.Timestamp, count uint32, start, end 
 	w.mu.Lock()
 	defer w.mu.Unlock()
 	add := func(p, f string, a ...interface{}) {
+		if p == "C01-order" {
+			// disjointness / real-time order is C01's clause; "the first timestamp after a take-over is
+			// larger than everything granted before" is also the consequence clause of C02
+			p = w.only
+		}
 		if len(w.viol) < 20 && p == w.only {
 			w.viol = append(w.viol, Violation{p, fmt.Sprintf(f, a...)})
 		}
@@ -338,15 +352,15 @@ func (w *world) recordGrant(m *mem, ts pdpb.Timestamp, count uint32, start, end 
 	for i := len(w.grants) - 1; i >= 0; i-- {
 		o := w.grants[i]
 		if g.lo <= o.hi && o.lo <= g.hi {
-			add("C01", "ranges overlap: %s got [%d..%d] (phys %d logical %d count %d), earlier member %d.g%d got [%d..%d]", who, g.lo, g.hi, p, l, n, o.m, o.gen, o.lo, o.hi)
+			add("C01-order", "ranges overlap: %s got [%d..%d] (phys %d logical %d count %d), earlier member %d.g%d got [%d..%d]", who, g.lo, g.hi, p, l, n, o.m, o.gen, o.lo, o.hi)
 			break
 		}
 		if o.end < g.start && o.hi >= g.lo {
-			add("C01", "real-time order broken: %s got [%d..%d] (phys %d logical %d) although the earlier completed response of member %d.g%d was [%d..%d] (phys %d logical %d)", who, g.lo, g.hi, p, l, o.m, o.gen, o.lo, o.hi, o.phys, o.logical)
+			add("C01-order", "real-time order broken: %s got [%d..%d] (phys %d logical %d) although the earlier completed response of member %d.g%d was [%d..%d] (phys %d logical %d)", who, g.lo, g.hi, p, l, o.m, o.gen, o.lo, o.hi, o.phys, o.logical)
 			break
 		}
 		if g.end < o.start && g.hi >= o.lo {
-			add("C01", "real-time order broken (later request got smaller values)")
+			add("C01-order", "real-time order broken (later request got smaller values)")
 			break
 		}
 		if sequential && len(w.grants)-i > 64 {
@@ -377,12 +391,25 @@ func (w *world) newMember(i, gen int, offset int64) *mem {
 }
 
 // Run executes a case and returns run information and the violations found.
+// Stats of one execution.
+type Stats struct {
+	Writes int // write txns issued in the sequential part
+	Grants int
+}
+
+// Run executes a case (see RunX).
 func Run(c Case, only string) (vkit.Info, []Violation) {
+	info, viol, _ := RunX(c, only)
+	return info, viol
+}
+
+// RunX executes a case and returns run information, the violations found and statistics.
+func RunX(c Case, only string) (vkit.Info, []Violation, Stats) {
 	var info vkit.Info
 	sl, f, err := getSlots()
 	if err != nil {
 		info.Inconclusive = true
-		return info, nil
+		return info, nil, Stats{}
 	}
 	root := f.Root()
 	w := &world{c: c, f: f, sl: sl, root: root, tsKey: path.Join(root, "timestamp"), ldKey: path.Join(root, "leader"),
@@ -455,7 +482,7 @@ func Run(c Case, only string) (vkit.Info, []Violation) {
 	for i := range w.viol {
 		w.viol[i].Msg = fmt.Sprintf("%s [root %s]", w.viol[i].Msg, root)
 	}
-	return info, w.viol
+	return info, w.viol, Stats{Writes: w.writeSeq, Grants: len(w.grants)}
 }
 
 // NonTrivialC01 / NonTrivialC02 implement the rules of DESIGN.md.
